@@ -5,7 +5,11 @@ pub mod c04;
 pub mod c05;
 pub mod c06;
 pub mod c07;
+pub mod c09;
+pub mod c10;
 pub mod c11;
+pub mod c12;
+pub mod c14;
 
 use crate::report::Report;
 
